@@ -70,6 +70,37 @@ def _chain_kind(e, g):
     return 'group-member-chain'
 
 
+def _norm_gen_finalisers(o):
+    """observation with every run of consecutive ('gf', id, GeneratorExit) log entries sorted"""
+    o = json.loads(json.dumps(o))
+    for x in o[2:]:
+        if isinstance(x, list) and x and x[0] == 'log':
+            items = x[1]
+            i = 0
+            while i < len(items):
+                if _entry(items[i])[0] == 'gf':
+                    j = i
+                    while j < len(items) and _entry(items[j])[0] == 'gf':
+                        j += 1
+                    items[i:j] = sorted(items[i:j], key=json.dumps)
+                    i = j
+                else:
+                    i += 1
+    return o
+
+
+def crash_key(f):
+    """crashes are keyed by the construct combination of the function (two confirmed mechanisms, see notes/C22.md)"""
+    src = f['src']
+    feats = set(f['feat'])
+    import re
+    if 'except-star' in feats and ('with' in feats or 'with-suppress' in feats):
+        return 'crash-with-statement-sees-null-traceback-of-except-star-group'
+    if re.search(r'^\s*raise$', src, re.M) and any(x.split('-in-')[0] in ('return', 'break', 'continue') for x in feats):
+        return 'crash-jump-out-of-except-clause-after-bare-raise'
+    return 'crash'
+
+
 def mechanism(f, exp, got):
     """mechanism key from structural features of the first difference"""
     le, lg = _log_of(exp), _log_of(got)
@@ -130,6 +161,7 @@ def main(ck):
     hist = {}
     irng = ck.rng('inj')
     ncases_feat = {}
+    order_only = 0
     for n, inf in info.items():
         if not inf['ok']:
             skipped += 1
@@ -151,6 +183,11 @@ def main(ck):
             hist[k] = hist.get(k, 0) + v
         for m in res.mismatches:
             f = fmap[m['case']['f']]
+            if _norm_gen_finalisers(m['exp']) == _norm_gen_finalisers(m['got']):
+                # only the order in which several abandoned nested generators are finalised differs (frame teardown
+                # order vs closure field order): every cleanup ran exactly once, the statement asks no more
+                order_only += 1
+                continue
             key, inf2 = mechanism(f, m['exp'], m['got'])
             ck.discrepancy(key, '%s%s: CPython %s | compiled %s | %s' % (f['name'], m['case']['a'], json.dumps(m['exp'])[:260],
                                                                        json.dumps(m['got'])[:260], json.dumps(inf2)[:300]),
@@ -160,7 +197,7 @@ def main(ck):
             if c['kind'].startswith('HANG'):
                 ck.inconclusive_if(True, 'watchdog fired on %s%s' % (f['name'], c['case']['a']))
                 continue
-            ck.discrepancy('crash', 'crash %s in %s%s' % (c['kind'], f['name'], c['case']['a']),
+            ck.discrepancy(crash_key(f), 'crash %s in %s%s' % (c['kind'], f['name'], c['case']['a']),
                            dict(witness(f, c['case'], None, None, {}), stderr=c['stderr']))
         for ft in res.fatal:
             ck.inconclusive_if(True, 'driver failed for %s: %s' % (n, str(ft)[-300:]))
@@ -179,6 +216,7 @@ def main(ck):
         'structure. distinct = distinct (function, CPython observation)',
         samples,
         extra={'functions': nfuncs, 'modules_failed_build': skipped, 'construct_functions': feat,
+               'cases_differing_only_in_generator_finalisation_order': order_only,
                'construct_case_counts': ncases_feat, 'outcome_hist': dict(sorted(hist.items(), key=lambda kv: -kv[1])[:30])},
         assumptions=['CPython 3.12.1 executing the identical source is the reference',
                      '__traceback__ objects are not compared (C44); sys.exc_info() is compared by class and last argument'])
